@@ -226,9 +226,29 @@ def check_proofs(ctx, prop_modules, driver=None, required=None, translate_msgs=(
     return pr
 
 
+_DRIVER_BUILT = set()
+
+
+def _build_driver_imports(name):
+    """the driver is interpreted from source but its imports are compiled modules: build them first (once per process), so that a
+    model file changed since the last full `lake build` is never used stale (a check builds only its own property modules)"""
+    if name in _DRIVER_BUILT:
+        return
+    _DRIVER_BUILT.add(name)
+    try:
+        src = (LEAN / "Drive" / f"{name}.lean").read_text()
+    except OSError:
+        return
+    mods = [m for m in re.findall(r"^import\s+(XpmVerif\.[A-Za-z0-9_.]+)", src, re.M)]
+    if mods:
+        with BuildLock():
+            _run(["lake", "build"] + mods, cwd=LEAN, timeout=3000)
+
+
 def run_driver(name, lines, timeout=3000):
     """pipe JSON lines through `lake env lean --run Drive/<name>.lean`; returns list of parsed outputs"""
     data = "".join(json.dumps(l) + "\n" for l in lines)
+    _build_driver_imports(name)
     rc, out, err = _run(["lake", "env", "lean", "--run", f"Drive/{name}.lean"], cwd=LEAN, timeout=timeout, input=data)
     outs = []
     for l in out.splitlines():
